@@ -1009,7 +1009,8 @@ RULE = (
     "Non-trivial: >= 4 labels, >= 4 insertions, >= 2 full comparisons, rules stored at the end."
 )
 TECHNIQUE = ("Coq proof over an executable store-generic model of the two databases (induction over arbitrary histories) + "
-             "extracted-model/implementation correspondence after every insertion of real searches")
+             "extracted-model/implementation correspondence on real searches (stored keys, equivalence-database and queue "
+             "calls, emptiness cache after every insertion; has_specification / contains / lookups at sampled insertions)")
 TRUSTED = [
     "modelled, not verified: rule_db/base.py (RuleDBBase.add, _clean_labels, contains, __iter__; RuleDB's dicts) and "
     "rule_db/forget.py (RecomputingDict: _flatten/_unflatten, __getitem__, __setitem__, __delitem__, __contains__, "
@@ -1027,9 +1028,13 @@ TRUSTED = [
 ]
 ASSUMPTIONS = [
     "strategies are pure functions of the class; equal strategy objects are the same strategy",
-    "the reproduction half of the property is demanded for universes honouring the strategy contracts (a "
-    "possibly_empty=False strategy has no empty child, symmetries preserve emptiness): otherwise the cached emptiness "
+    "the reproduction half of the property is demanded for universes honouring the strategy contracts of "
+    "Searcher/Contracts.v (c04.strong_contract, the same predicate as the Coq contractsb: a possibly_empty=False strategy "
+    "has no empty child on a non-empty class, nor on an empty one if its rules go through add_rule; symmetries preserve "
+    "emptiness) and whose symmetry rules are unary: otherwise the cached emptiness "
     "of a class can change between storing and looking up, in both databases alike",
+    "C14_search_stored_rules_handed_back additionally assumes that no factory item names a verification strategy "
+    "(twoway_faithful) and covers own-parent rules only (a factory rule with a foreign parent: the known finding)",
 ]
 LEVEL_TEXT = (
     "Theorems C14_* (coq/theories/Props/C14.v, all closed under the global context) over RuleDB/Model.v: ONE database "
@@ -1037,8 +1042,9 @@ LEVEL_TEXT = (
     "with RecomputingDict (RuleDBForgetStrategy; __getitem__ replays EmptyStrategy and the pack on the classes of the "
     "key) over any strategy table and the C15 class-database model. C14_same_keys_same_answers: for EVERY history of "
     "add calls (any labels, any rule), direct store assignments/deletions and arbitrary changes of the class database "
-    "in between, after every event both databases hold the same keys in both stores, made the same calls on the "
-    "equivalence database (of which is_verified is a function) and on the queue, left the same class database and "
+    "in between, after every event both databases hold the same keys in both stores, made - inside add - the same calls "
+    "on the equivalence database and on the queue (has_specification() itself issues further set_verified calls in "
+    "store-iteration order: those are not in the model's call list, the real databases are compared), left the same class database and "
     "exception status, answer every membership query alike, and has_specification (the C05 model of "
     "rules_up_to_equivalence + prune/iterative_prune) is the same for every representative function and every order "
     "in which the memory-saving SET is iterated; C14_has_specification_marks_same_labels: it marks the same set of "
@@ -1049,21 +1055,32 @@ LEVEL_TEXT = (
     "C14_recompute_outcomes: KeyError iff the key is not stored, RuntimeError only if no strategy of the pack produces "
     "the rule on a class of the key, never another exception; C14_lookup_side_effects: a lookup only extends the class "
     "database and keeps labels and is_empty answers of known classes. C14_dict_add_reproduces / "
-    "C14_stored_rule_is_handed_back: add called as the searcher calls it (C04_recorded_from_table) files the rule under "
+    "C14_stored_rule_is_handed_back: add called under add_pre (start = label of the rule's parent, ends = labels of ALL "
+    "its children in the class database at call time) files the rule under "
     "the key its own strategy reproduces; the dict returns that strategy; the memory-saving database hands back a "
     "reproducing strategy right after the insertion and in every later state that kept labels and is_empty answers, if "
     "a pack strategy produces the rule on its own parent class; C14_truthful_caches_keep_answers + "
-    "C14_search_states_keep_answers: any two states of a search (C04 searcher model, tables honouring the two strategy "
-    "contracts) are such states; C14_searcher_model_uses_dict_store: ruledb.add of the C04 searcher model and of this model do "
-    "the same to class database and key sets (so C04_recorded_from_table supplies the hypotheses for search-produced "
-    "histories). C14_every_stored_rule_handed_back_refuted: the unconditional statement is FALSE (rule "
+    "C14_search_states_keep_answers: any two PACKET-BOUNDARY states of a search (C04 searcher model, tables honouring the "
+    "two strategy contracts of Searcher/Contracts.v - restated, the former pair was contradictory when a symmetry has "
+    "an entry on an empty class -, packets of pack strategies) are such states; C14_search_stored_rules_handed_back "
+    "(composition with C04 through RuleDB/SearchHist.v, C04_search_gives_add_hist): for EVERY ruledb.add event of EVERY "
+    "run of the searcher model on a pruning database - also one made in the middle of a packet - add_pre held at call "
+    "time and, in the state the run is in now, RuleDBForgetStrategy hands back a reproducing strategy for the key of "
+    "that call from any store still holding it, if a pack strategy produces the rule on its own parent (extra table "
+    "hypotheses: symmetry rules are unary, no factory item names a verification strategy); "
+    "C14_searcher_model_uses_dict_store: one ruledb.add of the C04 searcher model and of this model do "
+    "the same to class database and key sets (the one-step lemma the composition iterates). "
+    "C14_every_stored_rule_handed_back_refuted: the unconditional statement is FALSE (rule "
     "with a foreign parent produced by a factory on another class: open known finding, repro in findings/); "
     "C14_repair_reproduces / C14_repair_hands_back: with the proposed repair (replay on all other labels afterwards) every "
     "rule produced on any labelled class is handed back. The model is tied to rule_db/base.py and rule_db/forget.py by "
-    "running real searches twice (RuleDB / RuleDBForgetStrategy) and comparing with the extracted model after every "
-    "insertion: key sets of both stores in both databases, equivalence-database/queue calls, emptiness cache, and at "
-    "sampled insertions has_specification, contains queries and every stored key looked up in both databases with the "
-    "strategy re-applied; an independent Python oracle checks the property statement directly on the two real databases."
+    "running real searches twice (RuleDB / RuleDBForgetStrategy) and comparing with the extracted model: after EVERY "
+    "insertion the key sets of both stores in both databases, equivalence-database/queue calls and the emptiness cache; "
+    "at SAMPLED insertions only (every insertion in 35% of the quick cases, else every 2nd-5th + first two + last) "
+    "has_specification, contains queries and every stored key looked up in both databases with the strategy "
+    "re-applied; an independent Python oracle checks the property statement on the two real databases - reproduction "
+    "only for universes honouring the contracts (c04.strong_contract = Coq contractsb, + unary symmetry rules) and "
+    "non-empty parents; in a case where the known finding is hit, nothing after the first hit is examined by the oracle."
 )
 LEVEL_NOTE = (
     "Trusted: Coq kernel, extraction + OCaml driver, the harness (logging wrappers, rollback of observation side effects, "
@@ -1075,8 +1092,9 @@ LEVEL_NOTE = (
     "has_specification()). Histories of theorem 1 contain add, store assignment/deletion and class-database changes; "
     "MutableMapping.pop on RecomputingDict (= lookup, then delete; no longer used by the library since e80f5df) is "
     "compared on the real stores by the oracle only. The reproduction theorems need labels and is_empty answers to be "
-    "stable between storing and looking up (pres): proved for searches on tables honouring the contracts "
-    "(possibly_empty=False strategies have no empty child, symmetries preserve emptiness); the oracle demands "
+    "stable between storing and looking up (pres): proved for searches on tables honouring the contracts of "
+    "Searcher/Contracts.v (a possibly_empty=False strategy has no empty child on a non-empty class, nor on an empty one "
+    "if its rules go through add_rule; symmetries preserve emptiness); the oracle demands "
     "reproduction only for such universes and for non-empty parent classes, as the property says. The model follows the "
     "code AS IT IS (open finding forget-foreign-parent-outside-key is printed as KNOWN-FINDING); with the proposed "
     "repair applied set FALLBACK_ALL_LABELS (the model has both behaviours: rec_getitem_x). Which of several reproducing "
